@@ -3,6 +3,7 @@ import socket as _socket
 
 import bvsym as sx
 from bvsym import core
+from .envpatch import EnvPatch
 from .common import FakeSock, KeySource, Obligation, cover, decode_client_frames, new_ws, quiet_logging, server_frame
 
 PROPERTY = "C08"
@@ -84,15 +85,9 @@ def _excs():
 
 
 def _install_clock(clock):
-    import websocket._core as C
-    real = getattr(C.time, "_real", C.time)
-
-    class T:
-        _real = real
-        time = staticmethod(clock.time)
-        sleep = staticmethod(clock.sleep)
-    C.time = T
-    return C, real
+    ep = EnvPatch()
+    ep.clock(clock.time, clock.sleep)
+    return ep, None
 
 
 def h_hist(calls, events):
@@ -105,7 +100,7 @@ def h_hist(calls, events):
     try:
         _h_hist(calls, events, clock)
     finally:
-        C.time = real_time
+        C.restore()
 
 
 def _h_hist(calls, events, clock):
@@ -273,7 +268,7 @@ def h_fault(first, accept):
         sx.require(sock.closed and ws.sock is None, "close() releases the transport after a write fault", first=first)
         cover("fault")
     finally:
-        C.time = real_time
+        C.restore()
 
 
 def status_unsigned(status):
@@ -338,7 +333,7 @@ def h_timeout(server):
         sx.require(len([f for f in frames if f[2] == 8]) == 1, "close() writes exactly one close frame", server=server)
         cover("timeout-" + server)
     finally:
-        C.time = real_time
+        C.restore()
 
 
 def obligations(tier):
